@@ -26,6 +26,7 @@ func init() {
 			c09R5(c, "C09.R5")
 			ruleFreelistNoAlias(c, "C09.R6")
 			c09R7(c, "C09.R7")
+			c09R9(c, "C09.R9")
 			ruleRollbackUndoesFrees(c, "C09.R8") // "rolling a transaction back restores exactly the prior state": every abort path calls freelist.Rollback before the lock is released
 		},
 		CHA: func(c *Ctx) { ruleFreeSetEntry(c, "C09.R1") },
@@ -419,5 +420,142 @@ func c09R7(c *Ctx, id string) {
 			}
 		}
 		c.check(id+":freelist.(*shared).Free:run", fr, store.Pos(), "Free records every id of the run p.Id() .. p.Id()+p.Overflow() as pending (induction variable, bound and step tabulated)", bad == "", bad)
+	})
+}
+
+// c09R9: "pending pages become free": the ids handed to a backend's mergeSpans must all reach its
+// storage. array: the new f.ids derives from the parameter. hashMap: every maximal run is handed to
+// mergeWithExistingSpan — inside the loop whenever the run breaks, and once more after the loop for the
+// last run — and mergeWithExistingSpan always ends in addSpan.
+func c09R9(c *Ctx, id string) {
+	c.rule(id, "released-ids-reach-the-store", 4, func() {
+		// array
+		am := c.fn("freelist.(*array).mergeSpans")
+		idsF := c.P.lookupField(freelistPath, "array", "ids")
+		ok := false
+		for _, st := range storesToField([]*ssa.Function{am}, idsF) {
+			for _, l := range provenance(st.Val, provOpts{ThroughCall: throughAll}) {
+				if l.Kind == "param" && l.Name == "ids" {
+					ok = true
+				}
+			}
+		}
+		c.check(id+":freelist.(*array).mergeSpans:stores-param", am, am.Pos(), "the array backend's new id list derives from the ids it was given", ok, "f.ids is not assigned from the parameter")
+		// hashMap
+		hm := c.fn("freelist.(*hashMap).mergeSpans")
+		calls := plainCallsIn(hm, "freelist.(*hashMap).mergeWithExistingSpan")
+		isCall := func(in ssa.Instruction) bool {
+			for _, x := range calls {
+				if ssa.Instruction(x) == in {
+					return true
+				}
+			}
+			return false
+		}
+		// (a) every return reachable without a flush is the early return on empty input
+		bad := ""
+		r := reach(nil, []*ssa.BasicBlock{hm.Blocks[0]}, isCall, nil)
+		for _, ret := range returnsOf(hm) {
+			if !r[ret] {
+				continue
+			}
+			// must be guarded by len(ids) == 0
+			guarded := false
+			for b := ret.Block(); b != nil; b = b.Idom() {
+				d := b.Idom()
+				if d == nil {
+					break
+				}
+				if iff, isIf := d.Instrs[len(d.Instrs)-1].(*ssa.If); isIf {
+					if bo, isB := iff.Cond.(*ssa.BinOp); isB && bo.Op == token.EQL {
+						if k, isK := constInt(bo.Y); isK && k == 0 {
+							if call, isC := bo.X.(*ssa.Call); isC && calleeOf(call).Name() == "builtin:len" && blockDominatedByEdge(d, d.Succs[0], ret.Block()) {
+								guarded = true
+							}
+						}
+					}
+				}
+			}
+			if !guarded {
+				bad = "mergeSpans can return for a non-empty id list without handing its last run to mergeWithExistingSpan"
+			}
+		}
+		c.check(id+":freelist.(*hashMap).mergeSpans:last-run-flushed", hm, hm.Pos(), "every return for non-empty input is preceded by a mergeWithExistingSpan call (the last run is not dropped)", bad == "" && len(calls) >= 1, bad)
+		// (b) inside the loop: whenever the run start is re-assigned, the old run was flushed first
+		bad = ""
+		loops := naturalLoops(hm)
+		found := false
+		for h, body := range loops {
+			for _, in := range h.Instrs {
+				ph, isPhi := in.(*ssa.Phi)
+				if !isPhi {
+					break
+				}
+				isStart := false
+				for _, call := range calls {
+					if call.Call.Args[1] == ssa.Value(ph) {
+						isStart = true
+					}
+				}
+				if !isStart {
+					continue // only the run-start variable is judged (the one handed to the flush as its first argument)
+				}
+				// leaves of the loop-carried value: (value, block it flows out of), looking through inner phis
+				var visit func(v ssa.Value, from *ssa.BasicBlock, seen map[ssa.Value]bool)
+				visit = func(v ssa.Value, from *ssa.BasicBlock, seen map[ssa.Value]bool) {
+					if v == ssa.Value(ph) || seen[v] {
+						return
+					}
+					if inner, isInner := v.(*ssa.Phi); isInner && body[inner.Block()] && inner.Block() != h {
+						seen[v] = true
+						for j, e := range inner.Edges {
+							visit(e, inner.Block().Preds[j], seen)
+						}
+						return
+					}
+					// v redefines ph when control leaves `from`: was ph the start of a flushed run before?
+					flushed := false
+					for _, call := range calls {
+						if call.Call.Args[1] == ssa.Value(ph) {
+							found = true
+							if body[call.Block()] && call.Block().Dominates(from) {
+								flushed = true
+							}
+						}
+					}
+					if !flushed {
+						bad = "the run start is re-assigned on a loop path that did not flush the previous run"
+					}
+				}
+				for i, e := range ph.Edges {
+					if body[h.Preds[i]] {
+						visit(e, h.Preds[i], map[ssa.Value]bool{})
+					}
+				}
+			}
+		}
+		if !found {
+			bad = "no in-loop mergeWithExistingSpan(start, …) precedes the re-assignment of the run start"
+		}
+		c.check(id+":freelist.(*hashMap).mergeSpans:run-flushed-on-break", hm, hm.Pos(), "when a run of consecutive ids breaks, the finished run is handed to mergeWithExistingSpan before a new run starts", bad == "", bad)
+		// (c) mergeWithExistingSpan always ends in addSpan
+		mw := c.fn("freelist.(*hashMap).mergeWithExistingSpan")
+		adds := plainCallsIn(mw, "freelist.(*hashMap).addSpan")
+		isAdd := func(in ssa.Instruction) bool {
+			for _, x := range adds {
+				if ssa.Instruction(x) == in {
+					return true
+				}
+			}
+			return false
+		}
+		bad = ""
+		r = reach(nil, []*ssa.BasicBlock{mw.Blocks[0]}, isAdd, nil)
+		for _, ret := range returnsOf(mw) {
+			if r[ret] {
+				bad = "mergeWithExistingSpan can return without addSpan"
+			}
+		}
+		c.check(id+":freelist.(*hashMap).mergeWithExistingSpan:adds", mw, mw.Pos(), "every path through mergeWithExistingSpan records the (merged) span with addSpan", bad == "" && len(adds) >= 1, bad)
 	})
 }
